@@ -366,7 +366,7 @@ def run_one(choices, params):
 
 
 def prepare(tier, seed):
-    return 2500 if tier == "quick" else 200000
+    return 20000 if tier == "quick" else 200000
 
 
 def params_for(i, tier, seed):
